@@ -4,6 +4,8 @@ Line-protocol driver for the C16 model (T2 correspondence).
   variant storesKey=1 checksKey=1 atomic=1 tolerant=1 tempPerCaller=1
   expr <id> <valId>                     doit table
   key <mode> <exprId> <nameId>          file-name table (mode: sha | seed<N>), tabulated from the real get_readable_hash
+  keyeq                                 start a key-equality table (clears the previous one); without it: identity
+  eq <storedExprId> <requestedExprId>   the real `stored_key == expr` is True for this ordered pair
   reset                                 empty directory, all processes idle
   file <name> <content>                 name: F/<mode>/<nameId> | T/<mode>/<nameId>/<pid> | O/<n>
                                         content: new/<e>/<v>/<k> | old/<v>/<k> | junk/<n> | empty | tail/<e>/<v>/<n>
@@ -17,6 +19,7 @@ structure Drv where
   v : Variant := Variant.fixed
   doit : List (Nat × Nat) := []
   keys : List ((Mode × Nat) × Nat) := []
+  eqs : Option (List (Nat × Nat)) := none
   st : State := initState []
   names : List Name := []
 
@@ -26,7 +29,10 @@ def lookupD {α β : Type} [BEq α] (l : List (α × β)) (a : α) (d : β) : β
   | none => d
 
 def Drv.world (d : Drv) : World :=
-  { key := fun m e => lookupD d.keys (m, e) (1000000 + e), doit := fun e => lookupD d.doit e 0 }
+  { key := fun m e => lookupD d.keys (m, e) (1000000 + e), doit := fun e => lookupD d.doit e 0,
+    keyEq := match d.eqs with
+      | none => fun a b => a == b
+      | some l => fun a b => l.contains (a, b) }
 
 def parseMode (s : String) : Option Mode :=
   if s == "sha" then some .sha
@@ -109,6 +115,11 @@ def handle (d : Drv) (toks : List String) : Drv × Option String :=
     match parseMode m, e.toNat?, h.toNat? with
     | some m, some e, some h => ({ d with keys := ((m, e), h) :: d.keys }, none)
     | _, _, _ => (d, some "bad-op")
+  | ["keyeq"] => ({ d with eqs := some [] }, none)
+  | ["eq", a, b] =>
+    match a.toNat?, b.toNat? with
+    | some a, some b => ({ d with eqs := some ((a, b) :: (d.eqs.getD [])) }, none)
+    | _, _ => (d, some "bad-op")
   | ["reset"] => ({ d with st := initState [], names := [] }, none)
   | ["file", n, c] =>
     match parseName n, parseContent c with
